@@ -171,6 +171,7 @@ def decodeBaseType (j : J) : Outcome BaseType :=
     let maxLength ← optInt (getF m "maxLength")
     let refTable ← optStr (getF m "refTable")
     let refType ← optStr (getF m "refType")
+    if !atomicTypeNames.contains (type.getD "") then .err "non atomic type in <base-type>" else
     pure { type := type.getD "", enum := enum.1, enumSet := enum.2, minReal, maxReal, minInteger, maxInteger, minLength, maxLength, refTable, refType }
   | _ => .err "json: cannot unmarshal into base type"
 
